@@ -155,6 +155,12 @@ impl<'a, 'b> B<'a, 'b> {
             self.p.marks.push(Mark { tok, anchor, role });
         }
     }
+    /// Mark a token that must start a line at indentation 0 (file-level keywords and headers).
+    fn mark_top(&mut self, tok: u32) {
+        if self.depth == 0 && self.anon == 0 && self.blocks == 0 {
+            self.p.marks.push(Mark { tok, anchor: tok, role: 3 });
+        }
+    }
     fn spend(&mut self) -> bool {
         self.fuel -= 1;
         self.fuel > 0 && !self.t.exhausted()
@@ -189,6 +195,9 @@ impl<'a, 'b> B<'a, 'b> {
             ("{$if CompilerVersion >= 30}", "{$endif}"),
             ("(*$IFDEF Z*)", "(*$ENDIF*)"),
             ("{$IFOPT C+}", "{$ENDIF}"),
+            ("{$ifdef ifdef_guard}", "{$endif}"),
+            ("{$if defined(notify) or defined(if_x)}", "{$ifend}"),
+            ("{$IfDef MixedCase}", "{$EndIf}"),
         ]);
         self.directive(o);
         c
@@ -201,7 +210,11 @@ impl<'a, 'b> B<'a, 'b> {
 
     fn compiler_directive(&mut self) {
         self.tag("compiler-directive");
-        let d = *self.t.pick(&["{$R *.res}", "{$define FOO}", "{$WARNINGS OFF}", "{$I inc.inc}", "{$R+}", "{$REGION 'x'}", "{$hints on}"]);
+        let d = *self.t.pick(&[
+            "{$R *.res}", "{$define FOO}", "{$WARNINGS OFF}", "{$I inc.inc}", "{$R+}", "{$REGION 'x'}", "{$hints on}",
+            "{$include include/defs.inc}", "{$region 'region: x'}", "{$define define_guard}", "{$Message Hint 'a message'}",
+            "(*$warn symbol_platform off*)", "{$i+}", "{$minenumsize 4}",
+        ]);
         self.directive(d);
     }
 
@@ -809,7 +822,7 @@ impl<'a, 'b> B<'a, 'b> {
                 self.tag("inherited");
             }
             _ => {
-                self.kw("exit");
+                self.named("exit");
                 if self.t.chance(1, 3) {
                     self.op("(");
                     self.expr(1);
@@ -1011,6 +1024,7 @@ impl<'a, 'b> B<'a, 'b> {
     fn var_section(&mut self, kwd: &str) {
         self.nl();
         let k = self.kw(kwd);
+        self.mark_top(k);
         self.depth += 1;
         let n = 1 + self.t.below(3);
         for _ in 0..n {
@@ -1040,6 +1054,7 @@ impl<'a, 'b> B<'a, 'b> {
     fn resourcestring_section(&mut self) {
         self.nl();
         let k = self.kw("resourcestring");
+        self.mark_top(k);
         self.depth += 1;
         let n = 1 + self.t.below(2);
         for _ in 0..n {
@@ -1057,6 +1072,7 @@ impl<'a, 'b> B<'a, 'b> {
     fn const_section(&mut self) {
         self.nl();
         let k = self.kw("const");
+        self.mark_top(k);
         self.depth += 1;
         let n = 1 + self.t.below(3);
         for _ in 0..n {
@@ -1100,7 +1116,7 @@ impl<'a, 'b> B<'a, 'b> {
             self.type_name();
         }
         self.op(";");
-        if in_class {
+        if in_class && !self.opts.simple {
             let n = self.t.below(3);
             let mut used: Vec<&str> = vec![];
             for _ in 0..n {
@@ -1189,7 +1205,7 @@ impl<'a, 'b> B<'a, 'b> {
                         let array_prop = self.t.chance(1, 4);
                         if array_prop {
                             self.op("[");
-                            self.named("Index");
+                            self.named("AIdx");
                             self.op(":");
                             self.named("Integer");
                             self.op("]");
@@ -1231,6 +1247,7 @@ impl<'a, 'b> B<'a, 'b> {
     fn type_section(&mut self) {
         self.nl();
         let k = self.kw("type");
+        self.mark_top(k);
         self.depth += 1;
         let n = 1 + self.t.below(3);
         for _ in 0..n {
@@ -1482,6 +1499,7 @@ impl<'a, 'b> B<'a, 'b> {
         self.nl();
         let is_fn = self.t.chance(1, 2);
         let h = self.kw(if is_fn { "function" } else { "procedure" });
+        self.mark_top(h);
         if self.t.chance(1, 3) {
             self.named("TFoo");
             self.op(".");
@@ -1530,6 +1548,7 @@ impl<'a, 'b> B<'a, 'b> {
         }
         self.nl();
         let b = self.kw("begin");
+        self.mark_top(b);
         let _ = h;
         self.stmt_list(b, "end");
         self.op(";");
@@ -1586,7 +1605,7 @@ impl<'a, 'b> B<'a, 'b> {
             comma_done = false;
             let wrap = self.opts.directives && i + 1 < n && self.t.chance(1, 6);
             let closer = if wrap { Some(self.cond_open()) } else { None };
-            let u = *self.t.pick(&["SysUtils", "Classes", "System", "Generics", "MyUnit", "Winapi"]);
+            let u = *self.t.pick(&["SysUtils", "Classes", "System", "Generics", "MyUnit", "WinTypes"]);
             self.named(u);
             if self.t.chance(1, 4) {
                 self.op(".");
@@ -1707,17 +1726,20 @@ impl<'a, 'b> B<'a, 'b> {
             2 => {
                 self.tag("file:unit");
                 self.nl();
-                self.kw("unit");
+                let k = self.kw("unit");
+                self.mark_top(k);
                 self.fresh("U");
                 self.op(";");
                 self.nl();
-                self.kw("interface");
+                let k = self.kw("interface");
+                self.mark_top(k);
                 if self.t.chance(1, 2) {
                     self.uses();
                 }
                 self.decls(true);
                 self.nl();
-                self.kw("implementation");
+                let k = self.kw("implementation");
+                self.mark_top(k);
                 if self.t.chance(1, 3) {
                     self.uses();
                 }
@@ -1725,6 +1747,7 @@ impl<'a, 'b> B<'a, 'b> {
                 if self.t.chance(1, 4) {
                     self.nl();
                     let i = self.kw("initialization");
+                    self.mark_top(i);
                     self.depth += 1;
                     let n = 1 + self.t.below(2);
                     for _ in 0..n {
@@ -1738,7 +1761,8 @@ impl<'a, 'b> B<'a, 'b> {
                     self.tag("initialization");
                 }
                 self.nl();
-                self.kw("end");
+                let k = self.kw("end");
+                self.mark_top(k);
                 self.op(".");
             }
             _ => {
